@@ -3,6 +3,7 @@
 //!
 //! field:   chain <elem>*     source side first; elem = (fin k) | (map f) | (filter p) | (take n)
 //!                            | (skip n) | (takewhile p) | (last) | (dflt v) | (takelast n) | (skiplast n)
+//!                            | (startwith v*)
 //! events:  emit (n v) | emit c | emit (e k)     on the source subject (post-terminal ones included)
 //!          unsub                                 the subscription (a second one is a no-op: the value moved)
 //!          gdrop                                 like `unsub`, through `unsubscribe_when_dropped()` + drop of the guard
@@ -80,6 +81,8 @@ macro_rules! impl_suite {
           "dflt" => p.default_if_empty(Val::parse(&xs[1])).box_it(),
           "takelast" => p.take_last(xs[1].nat()).box_it(),
           "skiplast" => p.skip_last(xs[1].nat()).box_it(),
+          // values replayed to the downstream BEFORE the part of the chain above is subscribed (no model: oracle only)
+          "startwith" => p.start_with(xs[1..].iter().map(Val::parse).collect::<Vec<_>>()).box_it(),
           h => panic!("unknown chain element {}", h),
         };
       }
@@ -103,6 +106,12 @@ macro_rules! impl_suite {
       }
       drop(pipeline);
       let drain = |log: &Log| std::mem::take(&mut *log.lock().unwrap());
+      // what a `startwith` element replayed during the subscription itself belongs to no event: only finalizer markers
+      // are kept (a callback that ran during the subscription would be a finding of the first event's line)
+      {
+        let mut l = log.lock().unwrap();
+        l.retain(|t| t.starts_with('F'));
+      }
       for (k, ev) in case.events.iter().enumerate() {
         out.cur = k;
         match ev[0].atom() {
